@@ -74,7 +74,7 @@ fn serve_h2c(be: MockBackend, plan: H2Plan, streams_expected: usize) -> H2Report
             return rep;
         }
     };
-    let deadline = Instant::now() + Duration::from_secs(7);
+    let deadline = Instant::now() + Duration::from_secs(5);
     // our SETTINGS (+ connection window bump)
     let mut first = vec![];
     let mut settings = vec![];
@@ -334,6 +334,8 @@ struct Ctx {
     n: usize,
 }
 
+static CLOSE_DELIMITED_SEEN: std::sync::atomic::AtomicUsize = std::sync::atomic::AtomicUsize::new(0);
+
 fn new_ctx() -> Result<Ctx, String> {
     let mut w = Worker::start(WorkerOpts::default()).map_err(|e| format!("start: {e:?}"))?;
     let front = w.add_http_listener().map_err(|e| format!("listener: {e:?}"))?;
@@ -405,7 +407,11 @@ fn case_h1_h1(ctx: &mut Ctx, rng: &mut Rng, sizes: &[usize], fails: &mut Vec<Fai
     for _ in 0..reqs {
         let n = *rng.pick(sizes);
         let m = *rng.pick(sizes);
-        plan.push((pattern(rng.below(200) as usize, n), rng.chance(1, 2), pattern(rng.below(200) as usize, m), rng.below(3)));
+        let mut fr = rng.below(3);
+        if fr == 2 && CLOSE_DELIMITED_SEEN.load(std::sync::atomic::Ordering::Relaxed) >= 2 {
+            fr = rng.below(2);
+        }
+        plan.push((pattern(rng.below(200) as usize, n), rng.chance(1, 2), pattern(rng.below(200) as usize, m), fr));
     }
     let case = format!("h1-h1 host={host} plan={:?}", plan.iter().map(|p| (p.0.len(), p.1, p.2.len(), p.3)).collect::<Vec<_>>());
     let plan_b = plan.clone();
@@ -459,7 +465,7 @@ fn case_h1_h1(ctx: &mut Ctx, rng: &mut Rng, sizes: &[usize], fails: &mut Vec<Fai
             err = Some(e);
             break;
         }
-        match read_http_message(&mut c, Duration::from_secs(5)) {
+        match read_http_message(&mut c, Duration::from_secs(if plan[i].3 == 2 { 2 } else { 5 })) {
             Ok(m) => {
                 if m.status() != Some(200) {
                     err = Some(format!("response {i}: {}", m.start_line));
@@ -471,6 +477,7 @@ fn case_h1_h1(ctx: &mut Ctx, rng: &mut Rng, sizes: &[usize], fails: &mut Vec<Fai
                 let head_end = find(&c.received[c.parsed..], b"\r\n\r\n").map(|p| p + 4).unwrap_or(0);
                 let got = c.received.len() - c.parsed - head_end;
                 if plan[i].3 == 2 && got == plan[i].2.len() && c.received[c.parsed + head_end..] == plan[i].2[..] {
+                    CLOSE_DELIMITED_SEEN.fetch_add(1, std::sync::atomic::Ordering::Relaxed);
                     fails.push(Fail { class: "h1-h1-close-delimited-response-no-end".into(), detail: format!("response {i}: all {got} body bytes arrived but sozu neither closes the connection nor delimits the body ({e:?})"), case: case.clone() });
                 } else {
                     err = Some(format!("client read {i}: {e:?} ({got} body bytes of {})", plan[i].2.len()));
@@ -536,7 +543,7 @@ fn case_h1_h2c_once(ctx: &mut Ctx, rng: &mut Rng, req_len: usize, plan: H2Plan, 
     let mut c = RawConn::connect(ctx.front).unwrap();
     let bytes = request_bytes(&host, &body, chunked, rng);
     let send_err = client_send(&mut c, &bytes, rng).err();
-    let resp = read_http_message(&mut c, Duration::from_secs(6));
+    let resp = read_http_message(&mut c, Duration::from_secs(4));
     let rep = bt.join().unwrap_or_default();
     *dist.entry(format!("pair:h1-h2c:{tag}")).or_insert(0) += 1;
     let mut seen_classes: Vec<&String> = vec![];
@@ -570,7 +577,8 @@ fn case_h1_h2c_once(ctx: &mut Ctx, rng: &mut Rng, req_len: usize, plan: H2Plan, 
                     let head_end = find(&c.received, b"\r\n\r\n").map(|p| p + 4).unwrap_or(c.received.len());
                     let got = c.received.len() - head_end;
                     let sent_all = rep.error.is_none();
-                    let class = if got_req == body && sent_all && got < resp_want.len() { "h1-h2c-response-stalled" } else { "h1-h2c-transfer-failed" };
+                    let timed_out = format!("{e:?}").contains("Timeout");
+                    let class = if got_req == body && sent_all && timed_out { "h1-h2c-response-stalled" } else { "h1-h2c-transfer-failed" };
                     fails.push(Fail { class: class.into(), detail: format!("client read: {e:?}; {got} response body bytes at the client of {} the backend sent completely={sent_all}; request body complete at backend={}", resp_want.len(), got_req == body), case: case.clone() });
                 }
             }
@@ -626,8 +634,11 @@ fn main() {
         return;
     }
     if std::env::var("E2E_DEBUG").is_ok() {
-        let plan = H2Plan { init_window: Some(1 << 20), conn_bump: 1, stingy: false, drip: 100, read_max: 1 << 16, read_pause: Duration::ZERO, resp_body: pattern(3, 65536), resp_content_length: true };
-        let (case, rep) = case_h1_h2c(&mut ctx, &mut rng, 200000, plan, false, &mut fails, &mut dist, "debug");
+        let iw: u32 = std::env::var("E2E_DEBUG").ok().and_then(|v| v.parse().ok()).unwrap_or(1 << 20);
+        let req: usize = std::env::var("E2E_DEBUG_REQ").ok().and_then(|v| v.parse().ok()).unwrap_or(200000);
+        let plan = H2Plan { init_window: Some(iw), conn_bump: 1, stingy: false, drip: 100, read_max: 1 << 16, read_pause: Duration::ZERO, resp_body: pattern(3, 65535), resp_content_length: true };
+        let (case, rep) = case_h1_h2c(&mut ctx, &mut rng, req, plan, false, &mut fails, &mut dist, "debug");
+        eprintln!("rst={:?} goaway={:?}", rep.rst, rep.goaway);
         eprintln!("{case} frames={} err={:?}", rep.frames, rep.error);
         finish(&args, 1, &dist, &samples, &fails, &known_witnesses, t0);
         return;
@@ -723,7 +734,14 @@ fn finish(args: &verif_harness::Args, evaluations: u64, dist: &BTreeMap<String, 
     let mut per: BTreeMap<String, usize> = BTreeMap::new();
     let mut out = vec![];
     // C14 reports the peer-limit and liveness classes; byte-exactness classes belong to C01
-    let relevant = |class: &str| args.prop != "C14" || class.starts_with("h2c-") || class.starts_with("h1-h2c-") || class == "worker-died" || class == "rig-setup";
+    let relevant = |class: &str| {
+        if args.prop == "C14" {
+            class.starts_with("h2c-") || class.starts_with("h1-h2c-") || class == "worker-died" || class == "rig-setup"
+        } else {
+            // C01: the h2c peer-limit ledger classes are C14's
+            !class.starts_with("h2c-")
+        }
+    };
     for f in fails.iter().filter(|f| relevant(&f.class)) {
         let n = per.entry(f.class.clone()).or_insert(0);
         *n += 1;
